@@ -13,6 +13,7 @@ CONSTANTS
   ExportMode = "none"
   SampleMod = 1
   SampleRes = 0
+  NearMod = 1
   Hash <- IdHash
   MaxDecl = 2
 INVARIANTS NeverAccepts
